@@ -220,6 +220,30 @@ def d2_order(ctx):
     shp = kwarg(m, "shape")
     shp = expand_property(repo, fi, shp) if shp is not None else None  # Reader.shape is (self.ns, self.nc)
     ok = isinstance(shp, ast.Tuple) and [src(e) for e in shp.elts] == ["self.ns", "self.nc"]
+    if not ok and isinstance(shp, ast.Tuple) and len(shp.elts) == 2:
+        # properties read once into locals: each local must hold the property as it is when the mapping is made - a definition `x = self.ns` reaches the mapping only
+        # along paths on which the duration is not rewritten in between (a rewrite must be followed by a fresh read)
+        du_l = DefUse(fi.node, cfg)
+        mnode = cfg.node_for(m)
+        rewrites = [cfg.node_for(st) for st in walk_function(fi.node) if isinstance(st, ast.Assign) and isinstance(st.targets[0], ast.Subscript)
+                    and loc_name(st.targets[0].value) == "self.meta" and const_value(st.targets[0].slice) == (True, "fileTimeSecs")]
+        okl = True
+        for want_, e_ in zip(("self.ns", "self.nc"), shp.elts):
+            if src(e_) == want_:
+                continue
+            if not isinstance(e_, ast.Name):
+                okl = False
+                break
+            defs_ = du_l.reaching(e_.id, m)
+            if not defs_ or not all(d.kind == "assign" and d.value is not None and src(d.value) == want_ for d in defs_):
+                okl = False
+                break
+            others = {d.node.id for d in defs_}
+            for d in defs_:
+                for r_ in rewrites:
+                    if want_ == "self.ns" and r_ is not None and cfg.reachable(d.node, r_) and cfg.reachable(r_, mnode, avoid=[cfg.nodes[i] for i in others if i != d.node.id]):
+                        okl = False
+        ok = okl
     flat_map = False
     if not ok:
         # the other sound layout: the whole items of the file mapped 1-D, then the complete frames exposed as raw[:ns * nc].reshape(ns, nc)
@@ -285,6 +309,16 @@ def d2_order(ctx):
     names = GD.atoms_of(pc_all)
     if stores and len(names) <= 12:
         allowed = [k for k in names if any(w in k for w in ("nbytes", "st_size", "_raw.shape", "is_mtscomp", "self.meta", "fileSizeBytes"))]
+        # the decoded shape held in a local (shape = self._raw.shape) is the same size disagreement
+        du_a = DefUse(fi.node, cfg)
+        for k in names:
+            e_ = at.exprs.get(k)
+            if k not in allowed and e_ is not None:
+                for n_ in [x for x in ast.walk(e_) if isinstance(x, ast.Name)]:
+                    ds_ = [d for d in du_a.defs if d.var == n_.id and d.kind == "assign" and d.value is not None]
+                    if ds_ and all(any(w in src(d.value) for w in ("_raw.shape", "st_size", "nbytes")) for d in ds_):
+                        allowed.append(k)
+                        break
         if okt:
             allowed += [k for k in GD.atoms_of(GD.formula(t, at)) if k not in allowed]   # the size disagreement itself, however it is spelled
         for k in [x for x in names if x not in allowed]:
